@@ -534,7 +534,9 @@ void svalue_to_string (svalue_t * obj, outbuffer_t * outbuf, int indent, char de
 
         outbuf_add (outbuf, obj->u.ob->name);
 
-        if (!get_error_state (ES_STACK_FULL))
+        /* no room for the argument either: pushing it would raise "Stack overflow" from
+         * here, with the caller's buffer (often an error message under construction) lost */
+        if (!get_error_state (ES_STACK_FULL) && sp + 1 < end_of_stack)
           {
             push_object (obj->u.ob);
             guard = 1;
